@@ -1324,7 +1324,7 @@ static void list_push_hostlist (List l, hostlist_t hl)
     size_t n = 4096;
     char *s = Malloc (n);
 
-    while ((hostlist_ranged_string (hl, n-1, s) < 0) && (n*=2 < 0x7fffff)) {
+    while ((hostlist_ranged_string (hl, n-1, s) < 0) && ((n *= 2) < 0x7fffff)) {
         Realloc ((void **) &s, n);
     }
 
